@@ -5,8 +5,10 @@
    thread reads or writes, then under EVERY schedule (any interleaving of the atomic actions, no bound on
    its length) each thread, when it has returned, returned exactly what it returns when run alone from
    the initial memory, and its write footprint holds exactly what its solo run leaves there.
-   Instance: Neg and Abs into own destinations sharing one operand, with the footprints proven in
-   Imp/AliasProofs.v.
+   Instances: Neg and Abs into own destinations sharing one operand (footprints: Imp/AliasProofs.v); and two
+   Context calls - Add and Sub - sharing ONE Context and the SAME operand object for both of their arguments
+   (footprints over every branch of c.add incl. NaN handling and rounding: Imp/CtxProofs.v): under every
+   schedule each call returns the Condition of its solo run and leaves its solo result in its destination.
    PARTIAL with respect to the Go memory model: the theorem is about the model's memory actions.  The real
    footprint of the implementation (BigInt.inner's unsafe pointer into the inline array, math/big's
    temporaries, package tables) is observed by the Go race detector: the harness binary is rebuilt with
@@ -14,7 +16,7 @@
    operands through all Context methods and the read-only Decimal methods, comparing every result with a
    sequential baseline (GORACE=halt_on_error=1). *)
 From Coq Require Import ZArith Bool List.
-From Apd Require Import Generated.Consts Model.Base Model.NumDigits Imp.Mem Imp.Ops Imp.AliasProofs Imp.Interleave Imp.Concurrent.
+From Apd Require Import Generated.Consts Model.Base Model.NumDigits Imp.Mem Imp.Ops Imp.AliasProofs Imp.Interleave Imp.Concurrent Model.Decimal Model.Context Imp.CtxOps Imp.CtxProofs Imp.ConcurrentCtx.
 Import ListNotations.
 Open Scope Z_scope.
 
@@ -39,3 +41,18 @@ Print Assumptions C18_shared_operand_two_calls.
 Theorem C18_neg_footprint d x : rd_within (only_objs [d; x]) (neg_imp d x) /\ wr_within (only_obj d) (neg_imp d x).
 Proof. exact (conj (neg_imp_reads d x) (neg_imp_frame d x)). Qed.
 Print Assumptions C18_neg_footprint.
+
+(* two goroutines, one shared Context, one shared operand: OA := OC + OC and OB := OC - OC *)
+Theorem C18_shared_context_two_adds est c m0 sched :
+  let '(ts, m) := exec (two_adds est c) m0 sched in
+  forall o1 o2, nth_error ts 0 = Some (Ret o1) -> nth_error ts 1 = Some (Ret o2) ->
+  o1 = fst (run (add_imp est c false OA OC OC) m0) /\ o2 = fst (run (add_imp est c true OB OC OC) m0) /\
+  (forall f, m (OA, f) = snd (run (add_imp est c false OA OC OC) m0) (OA, f)) /\
+  (forall f, m (OB, f) = snd (run (add_imp est c true OB OC OC) m0) (OB, f)).
+Proof. exact (shared_context_and_operand_any_schedule est c m0 sched). Qed.
+Print Assumptions C18_shared_context_two_adds.
+
+Theorem C18_context_add_footprint est c sub d x y :
+  rd_within (only_objs [d; x; y]) (add_imp est c sub d x y) /\ wr_within (only_obj d) (add_imp est c sub d x y).
+Proof. exact (conj (add_imp_reads est c sub d x y) (add_imp_ww est c sub d x y)). Qed.
+Print Assumptions C18_context_add_footprint.
